@@ -293,8 +293,13 @@ def o_c10(meta, ans, ctx):
     data = bytearray(bytes.fromhex(a['S']['hex']))
     orig = bytes(data)
     mut = meta['mut'].split(':')
+    misplaced = meta.get('r', 0) % 64 != 0
+    def eps_refused_for_placement(x):
+        # on a misplaced buffer a *valid* header may be followed by an alignment error of the ε-copy reader (which blocks are
+        # concerned, and that it is exactly then, is C12); the model comparison pins the answer
+        return misplaced and x['status'] == 'err' and x.get('kind') == 'alignment'
     if mut[0] == '-':
-        return None if a['F']['status'] == 'ok' and a['E']['status'] == 'ok' else 'baseline: unperturbed stream not accepted'
+        return None if a['F']['status'] == 'ok' and (a['E']['status'] == 'ok' or eps_refused_for_placement(a['E'])) else 'baseline: unperturbed stream not accepted'
     if mut[0] == 'flip':
         k = int(mut[1]); data[k // 8] ^= 1 << (k % 8)
     elif mut[0] == 'setw':
@@ -311,6 +316,7 @@ def o_c10(meta, ans, ctx):
         x = a[mode]
         if exp is None:
             # only the minor version lowered (or unchanged): same value as the baseline
+            if mode == 'E' and eps_refused_for_placement(x): continue
             if x['status'] != 'ok': return 'minor-lower: a lower minor version is not accepted (%s)' % mode
             if erase_borrows(x['val']) != meta['val']: return 'minor-lower: a different value is returned (%s)' % mode
         else:
@@ -477,6 +483,12 @@ def o_c06(meta, ans, ctx):
         if len(p) != 3: return 'shape: ' + ans[:60]
         f, e = p[1].split(' '), p[2].split(' ')
         if f[1] != 'ok' or f[2] != meta['val']: return 'corpus-read-full: a stored file no longer deserializes to the stored value (%s)' % ' '.join(f[1:3])[:60]
+        ti = meta.get('ti')
+        wit = ti is not None and ti < len(ctx['u'].types) and any(x.known and 'C07' in x.known for x in ctx['u'].types[ti].walk())
+        if wit and e[1:3] == ['err', 'alignment']:
+            # a witness of the recorded finding KF-C07-1 (unit 3: blocks are not on multiples of their unit, so ε-copy of a
+            # stored file is refused at most placements): here only the bytes and the full-copy reader are pinned
+            return None
         if e[1] != 'ok' or erase_borrows(e[2]) != meta['val']: return 'corpus-read-eps: a stored file no longer ε-copy deserializes to the stored value (%s)' % ' '.join(e[1:3])[:60]
         if f[3] != str(meta['total']): return 'corpus-read-count: %s bytes consumed of %d' % (f[3], meta['total'])
         return None
@@ -791,49 +803,6 @@ def o_c16(meta, ans, ctx):
     return None
 
 
-class C08Spec(CaseSpec):
-    """the loader cases in the default configuration, then the full / heap loaders again with the crate built
-    without the `mmap` feature (the only other configuration that has loaders)"""
-    def run(self, prop, tier, seed, replay=None):
-        res = CaseSpec.run(self, prop, tier, seed, replay)
-        if replay or any(s.get('op') == 'build' for s, _ in res['disagreements']):
-            return res
-        ok, out = core.harness_build_nommap()
-        sig0 = {'op': 'load-nommap', 'type_shape': '', 'rust_type': '', 'outcome': ''}
-        if not ok:
-            res['disagreements'].append((dict(sig0, outcome='build-failed', kind='build-nommap'),
-                                         {'what': 'cargo build --no-default-features of the harness (epserde without mmap) failed', 'output': out[-3000:]}))
-            return res
-        u = build_universe(seed, tier)
-        cs = casegen.gen_cases(prop, u, seed, tier, probe=run_harness)
-        hide_known_witnesses(cs, u, prop)
-        keep = [k for k, m in enumerate(cs.meta) if m.get('kind') == 'type' or (m.get('kind') == 'load' and m.get('loader') in ('full', 'mem') and m.get('flags') == 0)]
-        lines = [cs.lines[k] for k in keep]
-        metas = [cs.meta[k] for k in keep]
-        impl = run_harness(lines, binary=core.HARNESS_BIN_NOMMAP)
-        model = run_model(harness_names(), lines)
-        ctx = {'u': u, 'prop': prop}
-        n = 0
-        for line, meta, ia, ma in zip(lines, metas, impl, model):
-            if meta.get('kind') != 'load': continue
-            n += 1
-            rust = u.types[meta['ti']].rust()
-            sig = dict(sig0, rust_type=rust, outcome=outcome_class(ia), op='load-%s-nommap' % meta['loader'])
-            if not answers_agree(ia, ma):
-                res['disagreements'].append((dict(sig, kind='disagreement'), {'line': line, 'rust_type': rust, 'impl': ia[:2000], 'model': ma[:2000],
-                                                                              'lines': [line], 'meta': _clean(meta), 'configuration': 'no mmap feature'}))
-            ctx['model_ans'] = ma
-            why = self.oracle(meta, ia, ctx)
-            if why:
-                res['failures'].append((dict(sig, clause=why.split(':')[0]), {'line': line, 'rust_type': rust, 'why': why + ' [crate built without the mmap feature]',
-                                                                              'impl': ia[:2000], 'model': ma[:2000], 'lines': [line], 'meta': _clean(meta)}))
-        if len(impl) != len(lines):
-            res['disagreements'].append((dict(sig0, outcome='process-died', kind='run-nommap'), {'what': 'the no-mmap harness stopped answering', 'last': impl[-1] if impl else ''}))
-        res['coverage']['evaluations'] += n
-        res['coverage']['configurations'] = {'default (std, mmap, derive)': res['coverage']['evaluations'] - n, 'std, derive (no mmap)': n}
-        return res
-
-
 class ProbeSpec(CaseSpec):
     """line-protocol cases plus probe programs that are built (and, when they compile, run)"""
     prefix = ''
@@ -881,6 +850,52 @@ class ProbeSpec(CaseSpec):
 
     def judge_accepted(self, name, e, g):
         return 'accepted: a program expected to be rejected compiles'
+
+
+class C08Spec(ProbeSpec):
+    """the loader cases in the default configuration (and the probe programs about `Send` / `Sync`), then the full / heap
+    loaders again with the crate built without the `mmap` feature (the only other configuration that has loaders)"""
+    prefix = 'c08_'
+    reject_markers = ('cannot be shared between threads safely', 'cannot be sent between threads safely')
+
+    def run(self, prop, tier, seed, replay=None):
+        res = ProbeSpec.run(self, prop, tier, seed, replay)
+        if replay or any(s.get('op') == 'build' for s, _ in res['disagreements']):
+            return res
+        ok, out = core.harness_build_nommap()
+        sig0 = {'op': 'load-nommap', 'type_shape': '', 'rust_type': '', 'outcome': ''}
+        if not ok:
+            res['disagreements'].append((dict(sig0, outcome='build-failed', kind='build-nommap'),
+                                         {'what': 'cargo build --no-default-features of the harness (epserde without mmap) failed', 'output': out[-3000:]}))
+            return res
+        u = build_universe(seed, tier)
+        cs = casegen.gen_cases(prop, u, seed, tier, probe=run_harness)
+        hide_known_witnesses(cs, u, prop)
+        keep = [k for k, m in enumerate(cs.meta) if m.get('kind') == 'type' or (m.get('kind') == 'load' and m.get('loader') in ('full', 'mem') and m.get('flags') == 0)]
+        lines = [cs.lines[k] for k in keep]
+        metas = [cs.meta[k] for k in keep]
+        impl = run_harness(lines, binary=core.HARNESS_BIN_NOMMAP)
+        model = run_model(harness_names(), lines)
+        ctx = {'u': u, 'prop': prop}
+        n = 0
+        for line, meta, ia, ma in zip(lines, metas, impl, model):
+            if meta.get('kind') != 'load': continue
+            n += 1
+            rust = u.types[meta['ti']].rust()
+            sig = dict(sig0, rust_type=rust, outcome=outcome_class(ia), op='load-%s-nommap' % meta['loader'])
+            if not answers_agree(ia, ma):
+                res['disagreements'].append((dict(sig, kind='disagreement'), {'line': line, 'rust_type': rust, 'impl': ia[:2000], 'model': ma[:2000],
+                                                                              'lines': [line], 'meta': _clean(meta), 'configuration': 'no mmap feature'}))
+            ctx['model_ans'] = ma
+            why = self.oracle(meta, ia, ctx)
+            if why:
+                res['failures'].append((dict(sig, clause=why.split(':')[0]), {'line': line, 'rust_type': rust, 'why': why + ' [crate built without the mmap feature]',
+                                                                              'impl': ia[:2000], 'model': ma[:2000], 'lines': [line], 'meta': _clean(meta)}))
+        if len(impl) != len(lines):
+            res['disagreements'].append((dict(sig0, outcome='process-died', kind='run-nommap'), {'what': 'the no-mmap harness stopped answering', 'last': impl[-1] if impl else ''}))
+        res['coverage']['evaluations'] += n
+        res['coverage']['configurations'] = {'default (std, mmap, derive)': res['coverage']['evaluations'] - n, 'std, derive (no mmap)': n}
+        return res
 
 
 class C04Spec(ProbeSpec):
